@@ -247,20 +247,22 @@ Qed.
 Lemma csum_map : forall f h l, (forall c, f (h c) = f c) -> csum f (map h l) = csum f l.
 Proof. induction l as [|c r IH]; intros H; simpl; [reflexivity | rewrite H, IH by assumption; reflexivity]. Qed.
 
-Lemma do_invalidate_acc : forall s step times, Acc s -> Acc (do_invalidate CS s step times).
+Lemma inval_where_bsum : forall (f : chunk -> Z) p starts tI, (forall c, f (ch_inval tI c) = f c) ->
+  forall l, bsum f (inval_where p starts tI l) = bsum f l.
 Proof.
-  intros s step times [A1 [A2 [A3 A4]]]. unfold do_invalidate.
-  set (inv_c := fun c : chunk => _).
-  set (fb := fun b : bucket => _).
-  assert (Hh : forall f : chunk -> Z, (forall c, f (ch_inval (now s) c) = f c) -> forall c, f (inv_c c) = f c).
-  { intros f Hf c. unfold inv_c. destruct (existsb _ _); [apply Hf | reflexivity]. }
-  assert (Hb : forall f : chunk -> Z, (forall c, f (ch_inval (now s) c) = f c) -> forall l, bsum f (map fb l) = bsum f l).
-  { intros f Hf. induction l as [|b l IH]; simpl; [reflexivity|]. rewrite IH. f_equal.
-    unfold fb. destruct (b_step b =? step); [|reflexivity]. cbn [b_chunks]. apply csum_map. apply Hh. exact Hf. }
-  unfold Acc, isize. cbn [bks inf set_core].
-  rewrite (Hb c_size) by reflexivity. rewrite (Hb one) by reflexivity.
-  unfold zlen. rewrite map_length. fold (zlen (bks s)). repeat split; assumption.
+  intros f p starts tI Hf. unfold inval_where. induction l as [|b l IH]; simpl; [reflexivity|]. rewrite IH. f_equal.
+  destruct (p b); [|reflexivity]. cbn [b_chunks]. apply csum_map. intro c. destruct (existsb _ _); [apply Hf | reflexivity].
 Qed.
+Lemma inval_where_acc : forall s p starts tI, Acc s -> Acc (set_bks s (inval_where p starts tI (bks s))).
+Proof.
+  intros s p starts tI [A1 [A2 [A3 A4]]]. unfold Acc, isize, set_bks. cbn [bks inf set_core].
+  rewrite (inval_where_bsum c_size) by reflexivity. rewrite (inval_where_bsum one) by reflexivity.
+  unfold zlen, inval_where. rewrite map_length. fold (zlen (bks s)). repeat split; assumption.
+Qed.
+Lemma do_invalidate_acc : forall s step times, Acc s -> Acc (do_invalidate CS s step times).
+Proof. intros. apply inval_where_acc. assumption. Qed.
+Lemma inv_one_acc : forall s step key starts tI, Acc s -> Acc (inv_one s step key starts tI).
+Proof. intros. unfold inv_one. eapply Acc_ext; [| |apply (inval_where_acc s (fun b => (b_step b =? step) && (b_key b =? key)) starts tI H)]; reflexivity. Qed.
 
 (* ---- removal of chunks ---- *)
 Lemma span_old_app : forall t l, fst (span_old t l) ++ snd (span_old t l) = l.
@@ -306,7 +308,7 @@ Proof.
   intros s sp k [A1 [A2 [A3 A4]]]. unfold remove_bucket.
   destruct (find_bucket sp k (bks s)) as [b|] eqn:Eb; [|repeat split; assumption].
   destruct (drop_found c_size sp k (bks s) b Eb) as [D1 D2]. destruct (drop_found one sp k (bks s) b Eb) as [D3 _].
-  unfold Acc, isize in *. cbn [bks inf set_core i_sz i_bc i_cs i_cc]. rewrite !tot_addm, sum_size_csum.
+  unfold Acc, isize in *. cbn [bks inf set_core set_ipass i_sz i_bc i_cs i_cc]. rewrite !tot_addm, sum_size_csum.
   rewrite csum_one in D3. repeat split; try lia; nia.
 Qed.
 
@@ -371,7 +373,7 @@ Proof. intros. unfold run_trim. destruct (_ && _); [apply trim_loop_acc|]; assum
 
 Lemma step_acc : forall s o, Acc s -> Acc (fst (step CS COL ROW FX s o)).
 Proof.
-  intros s o H. destruct o as [d|rid sp k f t p fo|l ok|sp ts| |a m so|]; cbn [step].
+  intros s o H. destruct o as [d|rid sp k f t p fo|l ok|sp ts| |a m so| |rid|sp ts|]; cbn [step].
   - eapply Acc_ext; [| |exact H]; reflexivity.
   - pose proof (do_get_acc s rid sp k f t p fo H) as G. destruct (do_get CS s rid sp k f t p fo) as [s1 e]. apply run_trim_acc. exact G.
   - pose proof (do_loaddone_acc s l ok H) as G. destruct (do_loaddone CS COL ROW s l ok) as [s1 e]. apply run_trim_acc. exact G.
@@ -380,6 +382,9 @@ Proof.
   - apply run_trim_acc. unfold do_setlimits. destruct (if m <=? 0 then _ else _) as [mx' soft'].
     destruct (_ || _); [assumption | eapply Acc_ext; [| |exact H]; reflexivity].
   - cbn [fst]. unfold do_shutdown. destruct (shut s); [assumption|]. apply reduce_acc. eapply Acc_ext; [| |exact H]; reflexivity.
+  - unfold do_cancel. destruct (existsb _ _); cbn [fst]; [eapply Acc_ext; [| |exact H]; reflexivity | assumption].
+  - cbn [fst]. unfold do_inv_begin. destruct (first_key sp (bks s)); [apply inv_one_acc; assumption | eapply Acc_ext; [| |exact H]; reflexivity].
+  - cbn [fst]. unfold do_inv_next. destruct (ipass s) as [[[[sp starts] tI] [k|]]|]; [apply inv_one_acc; assumption | |]; (eapply Acc_ext; [| |exact H]; reflexivity).
 Qed.
 
 Theorem run_acc : forall ops s, Acc s -> Acc (fst (run CS COL ROW FX s ops)).
